@@ -601,16 +601,23 @@ def explore(tier, seed, res=None, replay=None):
         # ---- specification on the implementation's output
         why = None
         facts = {}
+        degenerate = any(c["levels"][atom_info(a)[2]] == 1 for t in c["terms"] if t != "1"
+                         for a in t if atom_info(a)[0] == "c")
         if "err" in io:
             why = "design_matrices raised " + io["err"]
         else:
             facts = {k: io[k] for k in ("ncols", "rank", "rank_full", "rank_joint", "nrows")}
             facts["dim"] = mo["dim"]
             facts["partition"] = mo.get("spec")
+            # a factor with one level makes some interval pieces zero-dimensional: the partition is
+            # then sufficient but no longer necessary, and the matrix alone decides
+            matrix_ok = (io["rank"] == io["ncols"] == io["rank_full"] == io["rank_joint"])
             if not io["integral"]:
                 why = "harness assumption broken: matrix entries are not integers"
             elif len(io["labels"]) != io["ncols"] or sum(w for _, w in io["widths"]) != io["ncols"]:
                 why = "labels / slices do not match the number of columns"
+            elif not mo.get("spec") and degenerate and matrix_ok:
+                res.count("one-level:non-partition-but-matrix-fine")
             elif not mo.get("spec"):
                 why = ("the coding used by the implementation does not partition the down-closure "
                        "of the family (redundant or missing directions)")
@@ -622,7 +629,7 @@ def explore(tier, seed, res=None, replay=None):
                 why = "partitioning coding, but the column space differs from the full-indicator space"
             if mo.get("spec"):
                 bridge_checked += 1
-            else:
+            elif not degenerate:
                 # converse of the bridge: a non-partitioning coding must show in the matrix
                 ok_matrix = (io["rank"] == io["ncols"] == io["rank_full"] == io["rank_joint"])
                 res.count("non-partition:matrix-" + ("still-fine" if ok_matrix else "defective"))
@@ -661,7 +668,7 @@ def explore(tier, seed, res=None, replay=None):
             res.count("margins-first (C03_hierarchical)")
             if not mo["pipeline_guard"] and not classes:
                 res.count("margins-first-but-outside-guard")
-        if (not why) != bool(mo["model_holds"]) and i_view == m_view:
+        if (not why) != bool(mo["model_holds"]) and i_view == m_view and not (degenerate and not why):
             # the model's own verdict must agree with the verdict on the implementation's output
             res.mismatches.append({"case": case, "impl": {"holds": not why, "why": why},
                                    "model": {"model_holds": mo["model_holds"]}})
